@@ -288,7 +288,7 @@ func (s *SUT) FailConfirm(rng *rand.Rand) (Op, []Problem) {
 
 // FailDoTx submits an inadmissible transaction; it must be refused without trace.
 func (s *SUT) FailDoTx(rng *rand.Rand) (Op, []Problem) {
-	classes := []string{"dup-input", "cite-more", "cite-less", "out-more", "out-less", "coinbase-flag", "missing-input", "wrong-owner", "frozen-input", "coinbase-with-inputs"}
+	classes := []string{"dup-input", "cite-more", "cite-less", "out-more", "out-less", "coinbase-flag", "missing-input", "wrong-owner", "frozen-input", "coinbase-with-inputs", "stale-key+transfer", "stale-key+transfer"}
 	cl := classes[rng.Intn(len(classes))]
 	xs := s.Hostile(rng, cl)
 	if len(xs) == 0 || xs[0] == nil {
